@@ -37,7 +37,7 @@ import (
 	"verifharness/lib"
 )
 
-const rule = "interleave case: distinct (lengths, phase, bytes read first, B mode, GOMAXPROCS, parallelism); loop case: content non-empty or script has a zero-length read/failure; header case: any; document case: distinct (plaintext length, cipher, algorithm, key-name options, wrap/unwrap callback modes, scripts). Complete enumerations (independent of the seed): segment loop with segSize in {1,2,3,4,8}, content length 0..3*seg+1: every composition of the content into read sizes up to length 4/7/10/9/8 (quick) resp. 4/7/10/13/13 (thorough), times both EOF styles, times terminal eof/failOnce/failSticky, one zero-length read at every position (content <= 7 quick, all thorough), two zero-length reads at every pair of positions (content <= 4 quick, <= 7 thorough), a failing processFn at every call; header reader: every subset of cut points over the last 12 bytes of the small well-formed headers with 0..3 payload bytes and every truncation offset, times EOF styles and terminals. Everything else (longer contents, extra zero-length reads, oversized headers, mutated headers, the fourth reader script of each toy-AEAD case) is drawn from the seed, hence exhaustive=false for the run as a whole. In this harness additionally complete: the key-name option table (empty/non-empty KeyName x DecryptionKeyName x OmitKeyName x Decrypt-side KeyName), the argument-mutating callback family (4 wrap modes x 3 unwrap modes x 3 lengths), all files of testdata; document scripts, large headers, foreign manifests, interleaved streams and io.Pipe consumers are seeded random. Units: `evaluations` counts cases (one loop/header script, one document, one history); `traces_validated_against_impl` counts individual comparisons of an implementation observable with the value the Lean model computes for it, and a document case contributes several (ciphertext bytes of Encrypt, outcome of Decrypt under the reader script, specDecrypt of the same bytes, header split), so traces can exceed evaluations."
+const rule = "interleave case: distinct (lengths, phase, bytes read first, B mode, GOMAXPROCS, parallelism); loop case: content non-empty or script has a zero-length read/failure; header case: any; document case: distinct (plaintext length, cipher, algorithm, key-name options, wrap/unwrap callback modes, scripts). Complete enumerations (independent of the seed): segment loop with segSize in {1,2,3,4,8}, content length 0..3*seg+1: every composition of the content into read sizes up to length 4/7/10/9/8 (quick) resp. 4/7/10/13/13 (thorough), times both EOF styles, times terminal eof/failOnce/failSticky, one zero-length read at every position (content <= 7 quick, all thorough), two zero-length reads at every pair of positions (content <= 4 quick, <= 7 thorough), a failing processFn at every call; header reader: every subset of cut points over the last 12 bytes of the small well-formed headers with 0..3 payload bytes and every truncation offset, times EOF styles and terminals. Everything else (longer contents, extra zero-length reads, oversized headers, mutated headers, the fourth reader script of each toy-AEAD case) is drawn from the seed, hence exhaustive=false for the run as a whole. In this harness additionally complete: the key-name option table (empty/non-empty KeyName x DecryptionKeyName x OmitKeyName x Decrypt-side KeyName), the argument-mutating callback family (4 wrap modes x 3 unwrap modes x 3 lengths), all files of testdata, and the zero-read-run family (zeroruns.go: a source that answers (0, nil) k times in a row at a chosen byte offset, k in {1,2,10,99,100,101,250,1000,5000} x every named offset (before the first byte, inside the scheme line / manifest, before the end of the header, between header and body, middle of a segment, before the end of a segment, at the segment boundary = before the look-ahead byte, after the look-ahead byte, before the last tag, before the last byte, before EOF) x plaintext source of Encrypt / ciphertext source of Decrypt, each pair at every other of the plaintext lengths {0,1,300,65535,65536,65537,131072,131073} in the quick tier and at all of them (plus more k and lengths up to 6*65536) in the thorough tier, both ciphers, base chunk sizes {unlimited,7,1000,4096,S,S+1,S+16,S+17}; several runs in one stream); document scripts, large headers, foreign manifests, interleaved streams and io.Pipe consumers are seeded random. Units: `evaluations` counts cases (one loop/header script, one document, one history); `traces_validated_against_impl` counts individual comparisons of an implementation observable with the value the Lean model computes for it, and a document case contributes several (ciphertext bytes of Encrypt, outcome of Decrypt under the reader script, specDecrypt of the same bytes, header split), so traces can exceed evaluations."
 
 // ---- documents ----
 
@@ -62,6 +62,14 @@ type docCase struct {
 	// callbacks that write to their arguments (the contract is about VALUES at call time: unwrap(wrap(k)) = k)
 	WrapMode   string `json:"wrap_mode,omitempty"`   // zero-after | in-place | append7 | append16
 	UnwrapMode string `json:"unwrap_mode,omitempty"` // wipe-wrapped | reuse-buffer
+	// runs of consecutive zero-length reads (zeroruns.go): when set, the source of Encrypt (Src*) resp. of Decrypt
+	// (Mid*) is a position-exact runReader (base chunk size, (0, nil) K times at byte offset At) instead of the
+	// script; only the EOF style of the script (ewd) is used.
+	SrcRuns      []zrun `json:"src_zero_runs,omitempty"`
+	SrcChunk     int    `json:"src_chunk,omitempty"`
+	MidRuns      []zrun `json:"doc_zero_runs,omitempty"`
+	MidChunk     int    `json:"doc_chunk,omitempty"`
+	ZeroRunWhere string `json:"zero_run_where,omitempty"` // label of the family member (distribution only)
 }
 
 var appendTag = []byte{0xa1, 0xa2, 0xa3, 0xa4, 0xa5, 0xa6, 0xa7, 0xa8, 0xa9, 0xaa, 0xab, 0xac, 0xad, 0xae, 0xaf, 0xb0}
@@ -240,13 +248,15 @@ type docObs struct {
 	unwrapKN string
 	unwrapAl string
 	unwrapN  int
+	srcRR    *runReader // the position-exact sources of a zero-run case (nil otherwise)
+	midRR    *runReader
 }
 
 func runDoc(c docCase) docObs {
 	var o docObs
 	p := plainOf(c)
-	src := c.Src
-	src.Data = p
+	srcReader, srcRR := c.srcReader(p)
+	o.srcRR = srcRR
 	opts := enc.EncryptOptions{
 		Algorithm: enc.KeyAlgorithm(c.Alg), KeyName: c.kn(), DecryptionKeyName: c.dkn(), OmitKeyName: c.Omit,
 		WrapKeyFn: func(k []byte, alg, kn string, nonce []byte) ([]byte, []byte, error) {
@@ -260,7 +270,7 @@ func runDoc(c docCase) docObs {
 		opts.Cipher = &ci
 	}
 	gerr := encx.Guard(60*time.Second, func() error {
-		r, err := enc.Encrypt(src.Reader(), opts)
+		r, err := enc.Encrypt(srcReader, opts)
 		if err != nil {
 			o.encErr = err
 			return nil
@@ -275,11 +285,11 @@ func runDoc(c docCase) docObs {
 	if o.encErr != nil || o.termErr != nil {
 		return o
 	}
-	mid := c.Mid
-	mid.Data = o.doc
+	midReader, midRR := c.midReader(o.doc)
+	o.midRR = midRR
 	var ubuf []byte
 	gerr = encx.Guard(60*time.Second, func() error {
-		r, err := enc.Decrypt(mid.Reader(), enc.DecryptOptions{KeyName: c.Override,
+		r, err := enc.Decrypt(midReader, enc.DecryptOptions{KeyName: c.Override,
 			UnwrapKeyFn: func(w []byte, alg, kn string, nonce, tag []byte) ([]byte, error) {
 				o.unwrapN++
 				o.unwrapAl, o.unwrapKN = alg, kn
@@ -513,6 +523,10 @@ func run(f lib.Flags) {
 		encx.Inflight(c)
 		checkDoc(res, drv, real, c, rng, i)
 	}
+	for i, c := range genZeroRuns(f.Tier, lib.NewRand(f.Seed^0x7a65726f72756e73), f.Search) {
+		encx.Inflight(c)
+		checkDoc(res, drv, real, c, rng, i)
+	}
 	for i, c := range genForeign(f.Tier, rng.Fork()) {
 		checkForeign(res, drv, real, c, i)
 	}
@@ -567,6 +581,19 @@ func checkDoc(res *lib.Result, drv *lib.Drv, real bool, c docCase, rng *lib.Rand
 	p := plainOf(c)
 	hl := headerLenOf(c)
 	hc := hdrClass(hl) + c.mutating()
+	if c.zeroRuns() {
+		// finding class of this family: the failure is met under a source with a run of (0, nil) reads
+		hc += ":zero-read-run"
+		res.Hit("doc.zero_run=" + c.ZeroRunWhere)
+		res.Hit("doc.zero_run.src_longest=" + runBucket(maxRun(c.SrcRuns)))
+		res.Hit("doc.zero_run.doc_longest=" + runBucket(maxRun(c.MidRuns)))
+		if o.srcRR != nil {
+			res.Hit("doc.zero_run.src_zero_reads_answered>=100=" + strconv.FormatBool(o.srcRR.zeros >= 100))
+		}
+		if o.midRR != nil {
+			res.Hit("doc.zero_run.doc_zero_reads_answered>=100=" + strconv.FormatBool(o.midRR.zeros >= 100))
+		}
+	}
 	if c.WrapMode != "" {
 		res.Hit("doc.wrap_mode=" + c.WrapMode)
 	}
@@ -673,12 +700,11 @@ func checkDoc(res *lib.Result, drv *lib.Drv, real bool, c docCase, rng *lib.Rand
 		}
 		manifest = append(manifest, fmt.Sprintf(`"kw":%d,"wfk":"%s","cph":%d,"np":"%s"}`, im.KW, base64.StdEncoding.EncodeToString(im.WFK), im.Cph, mm["np"])...)
 		idoc := encx.IndepEncrypt(o.fk, np, manifest, im.Cph, p)
-		mid := c.Mid
-		mid.Data = idoc
+		imid, _ := c.midReader(idoc)
 		var got []byte
 		var derr, dterm error
 		gerr := encx.Guard(60*time.Second, func() error {
-			r, err := enc.Decrypt(mid.Reader(), enc.DecryptOptions{KeyName: c.Override,
+			r, err := enc.Decrypt(imid, enc.DecryptOptions{KeyName: c.Override,
 				UnwrapKeyFn: func(w []byte, alg, kn string, nonce, tag []byte) ([]byte, error) { return c.unwrapValue(w), nil }})
 			if err != nil {
 				derr = err
@@ -692,6 +718,10 @@ func checkDoc(res *lib.Result, drv *lib.Drv, real bool, c docCase, rng *lib.Rand
 		}
 	}
 	// T2b: the Lean specification encoder reproduces the document byte for byte
+	if c.zeroRuns() && !leanForZeroRun(c, o, idx) {
+		res.Hit("doc.zero_run.lean=monitors-only")
+		return
+	}
 	if real && len(im.NP) > 0 {
 		line := fmt.Sprintf("enc fk=%s np=%s wfk=%s kw=%d cph=%d keyname=%s plain=%s",
 			encx.Hex(o.fk), encx.Hex(im.NP), encx.Hex(im.WFK), im.KW, im.Cph, encx.Hex([]byte(im.K)), encx.Hex(p))
@@ -709,8 +739,12 @@ func checkDoc(res *lib.Result, drv *lib.Drv, real bool, c docCase, rng *lib.Rand
 		if kv["doc"] != encx.Hex(o.doc) {
 			res.Disagree("Encrypt(real) = Kit.Enc.specEncrypt over Lean-native primitives (bytes)", c, summarize(kv["doc"]), summarize(encx.Hex(o.doc)))
 		}
+		if o.srcRR != nil {
+			_, _, _, payload, _ := encx.SplitHeader(o.doc)
+			checkZeroRunModel(res, drv, c, p, o.srcRR.script(p), len(payload))
+		}
 		// the README-only Lean decoder (specDecrypt) opens the real document
-		if len(o.doc) <= 4*65552+400 {
+		if len(o.doc) <= 4*65552+400 && !c.zeroRuns() {
 			ans, err = drv.Ask(fmt.Sprintf("specdec fk=%s data=%s", encx.Hex(o.fk), encx.Hex(o.doc)))
 			if err != nil {
 				res.Disagree("driver-alive", c, err.Error(), "")
@@ -724,6 +758,9 @@ func checkDoc(res *lib.Result, drv *lib.Drv, real bool, c docCase, rng *lib.Rand
 		// and the Lean implementation-shaped decryptor opens the real document under the same script
 		mid := c.Mid
 		mid.Data = o.doc
+		if o.midRR != nil {
+			mid = o.midRR.script(o.doc) // the read sequence the real Decrypt saw, zero-length reads included
+		}
 		line = fmt.Sprintf("dec fk=%s keyname=%s %s", encx.Hex(o.fk), encx.Hex([]byte(c.Override)), mid.Line("data"))
 		ans, err = drv.Ask(line)
 		if err != nil {
